@@ -183,7 +183,9 @@ def selfAloneB (op : Op) : Bool :=
 accepts, the implementation model's run; `ref_*`: the reference interpreter's run when no operator
 has batch sizes; `refb_*`: the reference for chains with batched `apply` / `select` / `batch`
 operators (`Ref.chainEventsG`) and whether the decidable side conditions of
-`C08_refines_batched_partial` hold (`refb_ok`). -/
+`C08_refines_batched_partial` hold (`refb_ok`); `refs_*`: the reference `Ref.chainEventsS` (any source,
+passed-on skippable errors skipped) and `refa_ok` = `Ref.runOKAB` (the decidable side conditions of
+`C12_skip_any_partial` / `C08_refines_assign_aligned_partial`). -/
 def handle (j : Json) : Except String Json := do
   let specs ← (← Driver.getArr j "specs").toList.mapM parseSpec
   match Build.build {} specs with
@@ -219,6 +221,16 @@ def handle (j : Json) : Except String Json := do
          ("refb_out", Json.arr (rout.map valJson).toArray),
          ("refb_err", match rerr with | none => Json.null | some e => Driver.errJson e.kind),
          ("refb_cause", match rerr with | none => Json.null | some e => Driver.optErrJson e.cause)]
-    return Json.mkObj (base ++ refPart)
+    -- the reference for chains over ANY source (`Ref.chainEventsS`: every operator skips the skippable errors
+    -- passed on to it) and the Boolean side conditions of `C12_skip_any_partial` (all operators un-batched) /
+    -- `C08_refines_assign_aligned_partial` (aligned `assign`s with `batch_size` among them): `Ref.runOKAB`
+    let (sout, serr) := observe (Ref.chainEventsS ignore ops src)
+    let refS : List (String × Json) :=
+      [("refa_ok", toJson (Ref.runOKAB ignore ops src)),
+       ("refa_assign", toJson (ops.any fun op => op.kind == .assign && op.batch != 0)),
+       ("refs_out", Json.arr (sout.map valJson).toArray),
+       ("refs_err", match serr with | none => Json.null | some e => Driver.errJson e.kind),
+       ("refs_cause", match serr with | none => Json.null | some e => Driver.optErrJson e.cause)]
+    return Json.mkObj (base ++ refPart ++ refS)
 
 end Driver.Pipe
